@@ -355,8 +355,15 @@ func (x *histSys) Events() []string {
 		ev = append(ev, e+"!hook-500", e+"!write-500")
 	}
 	if x.full {
-		add("ann", fmt.Sprint(x.spec.Ann), "true", "false")
-		add("lbl", fmt.Sprint(x.spec.Lbl), "true", "false")
+		// (a hook that hands back what it observed keeps an annotation / label alive by itself once it is there: with
+		// such a hook the converged state legitimately depends on the past, so these two are only toggled while the
+		// hook does not echo them)
+		if x.spec.Echo == "" {
+			add("ann", fmt.Sprint(x.spec.Ann), "true", "false")
+		}
+		if x.spec.Echo != "full" {
+			add("lbl", fmt.Sprint(x.spec.Lbl), "true", "false")
+		}
 	}
 	// (a decorator does not adopt: an attachment stripped of its owner reference is a foreign object at a desired
 	// name, which the statement excludes)
